@@ -49,7 +49,13 @@ class Intern:
 
 
 def cver(v):
-    return str(int(v)) if v != "" else "0"
+    """version strings: "" -> 0, canonical positive decimals -> the number. The model compares numbers where the
+    code compares strings, so anything else ("0", "01", non-decimal) has no faithful image and is refused."""
+    if v == "":
+        return "0"
+    if not (v.isdigit() and v[0] != "0"):
+        raise ValueError("version string %r has no image in the model" % v)
+    return str(int(v))
 
 
 def cop(o, I):
@@ -180,6 +186,7 @@ def run(ctx):
 
     cases = [json.loads(l) for l in open(out)]
     modes = collections.Counter(c["mode"] for c in cases)
+    restore_conc = [c for c in cases if c["mode"] == "conc-restore"]
     opmix, outmix = collections.Counter(), collections.Counter()
     steps = 0
     distinct = set()
